@@ -66,9 +66,9 @@ def execute(c):
         elif op == "snapaffine":
             rot = c["rot"] / 1024
             A = Affine(c["sx"] / 1024, rot, c["tx"] / 1024, -rot, c["sy"] / 1024, c["ty"] / 1024)
-            tol = c["tol"][0] / c["tol"][1]
-            B = M.snap_affine(A, ttol=tol, stol=tol)
-            ev["o"] = {"terms": [_lat(v, 1024) for v in B[:6]], "idem": bool(M.snap_affine(B, ttol=tol, stol=tol) == B)}
+            tol, stol = c["tol"][0] / c["tol"][1], c["stol"][0] / c["stol"][1]
+            B = M.snap_affine(A, ttol=tol, stol=stol)
+            ev["o"] = {"terms": [_lat(v, 1024) for v in B[:6]], "idem": bool(M.snap_affine(B, ttol=tol, stol=stol) == B)}
         elif op == "rws":
             R = np.array(c["R"], dtype="float64").reshape(2, 2) / 65
             W = np.array([[1, c["w2"] / 2], [0, 1]])
